@@ -723,6 +723,10 @@ func monitorRun(steps []kstep, r runResult, cs interface{}) []core.Violation {
 	var vs []core.Violation
 	bad := func(sig, what string) {
 		vs = append(vs, core.Violation{Property: "C14", Signature: "run/" + sig, What: what, Case: cs})
+		if sig == "written-without-full-success" {
+			// the same history under C01 (see the S3 component)
+			vs = append(vs, core.Violation{Property: "C01", Signature: "kafka/" + sig, What: what, Case: cs})
+		}
 	}
 	sends := 0
 	uuidSeen := map[string]int{}
